@@ -30,7 +30,8 @@ META = {
         'quick': {'steps-checked': 50000, 'op:compromise': 5000, 'op:undo': 2000, 'op:remove_attacker': 1000,
                   'class:double-compromise': 500, 'class:undo-not-compromised': 500, 'class:remove-with-many-reached': 100,
                   'class:remove-with-zero-reached': 50, 'attach-compared': 80, 'class:attach-overlapping-entry-points': 50,
-                  'class:attach-unknown-step': 20, 'class:compromise-before-add': 100, 'exhaustive-histories': 10000},
+                  'class:attach-unknown-step': 20, 'class:compromise-before-add': 100, 'exhaustive-histories': 10000,
+                  'attach-variant:second-graph': 15, 'attach-variant:copy': 15},
         'thorough': {'steps-checked': 5000000, 'op:remove_attacker': 100000, 'attach-compared': 20000, 'exhaustive-histories': 400000},
     },
 }
@@ -153,12 +154,30 @@ def _check_attach(case, res, count=True):
     except Exception as exc:
         return ('build:raised-%s' % type(exc).__name__, 'building a generated case raised %r' % (exc,))
     lang, am = built.lang, built.am
+    # the model may have served other graphs before (or after) this one: attaching to THIS graph must use
+    # this graph's nodes and must not touch the others
+    variant = case.get('attach_variant', 'plain')
+    other = None
+    try:
+        if variant == 'second-graph':
+            other = built.attack_graph()             # generated later from the same model
+        elif variant == 'copy':
+            import copy as _copy
+            other, g = g, _copy.deepcopy(g)           # attach on the copy, the original must stay untouched
+    except TooExpensive:
+        return None
+    other_before = agraph.snapshot(other) if other is not None else None
     try:
         g.attach_attackers()
     except Exception as exc:
         return ('attach:raised-%s' % type(exc).__name__, 'attach_attackers raised %r' % (exc,))
     if count:
         res.count('attach-compared')
+        res.count('attach-variant:' + variant)
+    if other is not None and agraph.snapshot(other) != other_before:
+        return ('attach:touches-another-graph-of-the-same-model',
+                'attach_attackers on one graph changed another graph built from the same model (%s): %s' % (
+                    variant, agraph.snap_diff(other_before, agraph.snapshot(other))))
     if len(g.attackers) != len(am.attackers):
         return ('attach:attacker-count', '%d graph attackers for %d model attackers' % (len(g.attackers), len(am.attackers)))
     names = {a['id']: a['name'] for a in am.assets}
@@ -291,6 +310,7 @@ def run(rng, res, tier, shard, nshards):
         if not budget.more() and tier == 'quick' and res.counters.get('attach-compared', 0) > 40:
             break
         case = hostile_attackers(rng, gen_case(rng, Cfg(max_depth=2, max_assets=5), MCfg(max_assets=6, attackers=0.0, hostile_names=0.2), corelang_share=0.06))
+        case['attach_variant'] = rng.choice(['plain', 'second-graph', 'copy'])
         f = check_attach(case, res)
         res.case(digest([case['spec'], case['amodel']]))
         if f:
